@@ -303,6 +303,36 @@ def h_crash(ctx, table, n_ops):
         shutil.rmtree(d, ignore_errors=True)
 
 
+def h_two_profiles(ctx):
+    """two accounts of one user, each with its own store file in its own directory (the directory carries the profile's name, which is the
+    user's choice): what one account stores never shows up in, or replaces, what the other one stored; each file is where it was asked for"""
+    d = tempfile.mkdtemp(prefix="c13p_", dir=_TMP)
+    try:
+        a, b_ = ctx.choice("profile_names", [("alice", "bob"), ("team#1", "team#2"), ("who?me", "who?you"), ("100%", "100%25"), ("a b", "a c")])
+        pa, pb = os.path.join(d, a, "axolotl.db"), os.path.join(d, b_, "axolotl.db")
+        os.makedirs(os.path.dirname(pa))
+        os.makedirs(os.path.dirname(pb))
+        sa, fa = open_store(pa, Boundary())
+        sa.storeSession(5, 1, Tok(b"session of the first account"))
+        ida = raw(pa, "SELECT registration_id, public_key FROM identities WHERE recipient_id = -1") if os.path.isfile(pa) else None
+        abandon(fa)
+        sb, fb = open_store(pb, Boundary())
+        sb.storeSession(5, 1, Tok(b"session of the second account"))
+        abandon(fb)
+        obs = [("each store file is where it was asked for", os.path.isfile(pa) and os.path.isfile(pb))]
+        if not (os.path.isfile(pa) and os.path.isfile(pb)):
+            return obs
+        s2, f2 = open_store(pa, Boundary())
+        abandon(f2)
+        ra, rb = read_table(pa, "sessions"), read_table(pb, "sessions")
+        obs.append(("the first account's session is still its own after the second account stored one", ra == {5: b"session of the first account"}))
+        obs.append(("the second account has its own", rb == {5: b"session of the second account"}))
+        obs.append(("the first account's own identity is unchanged", raw(pa, "SELECT registration_id, public_key FROM identities WHERE recipient_id = -1") == ida))
+        return obs
+    finally:
+        shutil.rmtree(d, ignore_errors=True)
+
+
 def h_kill(ctx):
     """a REAL process death: a child process (real store classes, real sqlite3, no doubles) replaces / adds / deletes a session and dies
     by os._exit when it reaches its COMMIT; the record size is the solver's choice from small to several MB (above sqlite's page cache a
@@ -720,6 +750,7 @@ def cases(tier):
     n = 2 if tier == "quick" else 4
     cs = [dict(name="crash[%s,ops<=%d]" % (t, n), fn=h_crash, args=(t, n), max_paths=100000, timeout_s=600 if tier == "quick" else 3400, weight=10, keep_samples=10) for t in TABLES]
     cs.append(dict(name="durable[real-records]", fn=h_durable_real))
+    cs.append(dict(name="two-profiles[directory names of the user's choosing]", fn=h_two_profiles, keep_samples=8))
     cs.append(dict(name="kill[child process dies at its commit, record size up to 3.5 MB]", fn=h_kill, keep_samples=18, timeout_s=600))
     ns = 2 if tier == "quick" else 3
     for t in TABLES:
